@@ -74,16 +74,16 @@ type Exec struct {
 	Log      []string
 	KeepLog  bool
 
-	objW     map[uint64]uint64 // last write event hash per object
-	objR     map[uint64]uint64 // sum of read event hashes since last write
-	addrIDs  map[uintptr]uint64
-	Frozen   bool // while true the explorer does not branch (setup phase)
-	Prune    func(e *Exec, fp uint64) bool
-	Pruned   bool
-	LastID   int
-	endSync  byte
-	stopReq  bool
-	Vals     map[string]any // per-execution scratch for shims/harnesses
+	objW    map[uint64]uint64 // last write event hash per object
+	objR    map[uint64]uint64 // sum of read event hashes since last write
+	addrIDs map[uintptr]uint64
+	Frozen  bool // while true the explorer does not branch (setup phase)
+	Prune   func(e *Exec, fp uint64) bool
+	Pruned  bool
+	LastID  int
+	endSync byte
+	stopReq bool
+	Vals    map[string]any // per-execution scratch for shims/harnesses
 }
 
 //go:norace
